@@ -531,6 +531,16 @@ def step (s : St) (op : List String) (impl : Option (List String)) : St × Strin
         else onNat impl "which_first" fun g =>
           [("which_first", (match v1[g]? with | some y => y == x | none => false) && (v1.take g).all (fun y => !(y == x)))])
     | _ => bad
+  | "whichall" =>
+    match v0 with
+    | [x] =>
+      (s, showRes showNats (VecTools.whichAll v1 x),
+        if !(v1.any (fun y => y == x)) then expectErr impl "notfound_raises" .notfound
+        else onNats impl "whichAll_spec" fun g => [("whichAll_spec", decide (IsPositionsOf feq v1 x g))])
+    | _ => bad
+  | "appendall" =>
+    (s, showV (VecTools.appendAll vs), onVec impl "appendAll_spec" fun g =>
+      [("appendAll_spec", showV g == showV vs.flatten)])
   | "union" =>
     (s, showV (VecTools.vectorUnion feq v0 v1), onVec impl "union_iff" fun g =>
       if noNaN v0 && noNaN v1 then [("union_iff", decide (IsUnion feq v0 v1 g))] else [])
